@@ -77,17 +77,18 @@ func (pres *Presence) UnmarshalXML(d *xml.Decoder, start xml.StartElement) error
 	pres.XMLName = start.Name
 
 	// Extract packet attributes
+	// The addressing attributes are the unqualified ones: x:to, xmlns:from and the like are something else
 	for _, attr := range start.Attr {
-		if attr.Name.Local == "id" {
+		if attr.Name.Space == "" && attr.Name.Local == "id" {
 			pres.Id = attr.Value
 		}
-		if attr.Name.Local == "type" {
+		if attr.Name.Space == "" && attr.Name.Local == "type" {
 			pres.Type = StanzaType(attr.Value)
 		}
-		if attr.Name.Local == "to" {
+		if attr.Name.Space == "" && attr.Name.Local == "to" {
 			pres.To = attr.Value
 		}
-		if attr.Name.Local == "from" {
+		if attr.Name.Space == "" && attr.Name.Local == "from" {
 			pres.From = attr.Value
 		}
 		if attr.Name.Local == "lang" {
